@@ -3,7 +3,7 @@ M: TLC model-checks ScpiStatus on bounded alphabets.  X: the implementation's ow
 explored over the same alphabets (snapshot/restore) and every transition validated by TLC against
 ScpiStatus (TVStatus).  V: random walks over full 16-bit values, all 65536 error codes."""
 import json, os, subprocess, sys, collections
-import lib, suite_traces
+import lib, suite_traces, composition
 
 PROPERTIES = ["C11", "C12"]
 
@@ -133,7 +133,8 @@ def run(pid, tier):
             rep.violation('driver-failure', dict(mode='codes', rc=d['rc'], stderr=d['stderr'].decode(errors='replace')[-2000:]))
         else:
             validate(rep, pid, w + '/codes.ndjson', 'codes')
-    suite_traces.validate(rep, pid + ':')       # hook traces of the repository's own test programs
+    suite_traces.validate(rep, pid + ':')
+    composition.validate(rep, pid, tier)       # hook traces of the repository's own test programs
     rep.cov['exhaustive'] = True
     rep.cov['explanation'] = 'exhaustive within the listed alphabets (model and implementation state graphs), sampled beyond (random walks)'
     import shutil
